@@ -166,7 +166,10 @@ frg::expected<format_error> printf_format(A agent, const char *s, va_struct *vsp
 			if(*s == '*') {
 				++s;
 				FRG_ASSERT(*s);
-				opts.precision = pop_arg<int>(vsp, &opts);
+				// A negative precision is taken as if the precision were omitted.
+				int p = pop_arg<int>(vsp, &opts);
+				if(p >= 0)
+					opts.precision = p;
 			}else{
 				int value = 0;
 				// If no integer follows the '.', then precision is taken to be zero
@@ -316,6 +319,8 @@ void do_printf_chars(S &sink, char t, format_options opts,
 template<Sink S>
 void do_printf_ints(S &sink, char t, format_options opts,
 		printf_size_mod szmod, va_struct *vsp, locale_options locale_opts = {}) {
+	// For integer conversions the 0 flag is ignored if a precision is specified.
+	bool zero_fill = opts.fill_zeros && !opts.precision;
 	switch(t) {
 	case 'd':
 	case 'i': {
@@ -341,7 +346,7 @@ void do_printf_ints(S &sink, char t, format_options opts,
 			// print nothing in this case
 		}else{
 			_fmt_basics::print_int(sink, number, 10, opts.minimum_width,
-					opts.precision ? *opts.precision : 1, opts.fill_zeros ? '0' : ' ',
+					opts.precision ? *opts.precision : 1, zero_fill ? '0' : ' ',
 					opts.left_justify, opts.group_thousands, opts.always_sign,
 					opts.plus_becomes_space, false, locale_opts);
 		}
@@ -356,7 +361,7 @@ void do_printf_ints(S &sink, char t, format_options opts,
 				// print nothing in this case
 			}else{
 				_fmt_basics::print_int(sink, number, 2, opts.minimum_width,
-						opts.precision ? *opts.precision : 1, opts.fill_zeros ? '0' : ' ',
+						opts.precision ? *opts.precision : 1, zero_fill ? '0' : ' ',
 						opts.left_justify, false, opts.always_sign, opts.plus_becomes_space,
 						false, locale_opts);
 			}
@@ -388,7 +393,7 @@ void do_printf_ints(S &sink, char t, format_options opts,
 				// print nothing in this case
 			}else{
 				_fmt_basics::print_int(sink, number, 8, opts.minimum_width,
-						opts.precision ? *opts.precision : 1, opts.fill_zeros ? '0' : ' ',
+						opts.precision ? *opts.precision : 1, zero_fill ? '0' : ' ',
 						opts.left_justify, false, opts.always_sign, opts.plus_becomes_space,
 						false, locale_opts);
 			}
@@ -421,7 +426,7 @@ void do_printf_ints(S &sink, char t, format_options opts,
 				// print nothing in this case
 			}else{
 				_fmt_basics::print_int(sink, number, 16, opts.minimum_width,
-						opts.precision ? *opts.precision : 1, opts.fill_zeros ? '0' : ' ',
+						opts.precision ? *opts.precision : 1, zero_fill ? '0' : ' ',
 						opts.left_justify, false, opts.always_sign, opts.plus_becomes_space,
 						t == 'X', locale_opts);
 			}
@@ -451,7 +456,7 @@ void do_printf_ints(S &sink, char t, format_options opts,
 				// print nothing in this case
 			}else{
 				_fmt_basics::print_int(sink, number, 10, opts.minimum_width,
-						opts.precision ? *opts.precision : 1, opts.fill_zeros ? '0' : ' ',
+						opts.precision ? *opts.precision : 1, zero_fill ? '0' : ' ',
 						opts.left_justify, opts.group_thousands, opts.always_sign,
 						opts.plus_becomes_space, false, locale_opts);
 			}
